@@ -28,8 +28,8 @@ in any order.
 | the three code paths hit by the seeded changes: merge loop of `write` (`mergeRun`), `set_current_size` leaving the heap alone on truncation (`setSize`), `overwrite` recording every region with `end > downloaded` also across the frontier (`overwrite`) | all inside `refines_reference` (lemmas `writeLoop_inv`, `setSize_inv`, `overwrite_inv0`); each is also compared with the real class after every event (heap contents included) |
 | the code before the fix violates the statement                                   | `asIs_clobbers_client_write_counterexample` |
 | every read is eventually answered (liveness; not claimed by the statement)       | `reads_answered_once_done` (no milestone survives `done_status`; one queue turn answers all fired reads); that the download does end is the environment's part |
-| the contents finally uploaded, at the level of the SFTP handle: `close` commits whenever a write was accepted, wherever close falls relative to the start of the download and the queued writes (`has_changed` set at request time; seeded C39-e) | `handle_close_commits_reference` (model `Tahoe/Sftp/Handle.lean` of `GeneralSFTPFile`'s queue, `has_changed`, `close`/`_commit`); `seedE_pipelined_close_loses_write_counterexample` for the set-point of the seed |
-| size changes applied — when the handle's only requests are `setAttrs(size)`     | FALSE for the code as it is: `code_size_change_only_not_stored_counterexample` (known finding `size-change-only-handle-not-stored`, fixes/C39-setattrs-has-changed.diff); with a write also present the size changes are covered by `handle_close_commits_reference` |
+| the contents finally uploaded, at the level of the SFTP handle: `close` commits whenever a write *or a size change* was accepted, wherever close falls relative to the start of the download and the queued requests (`has_changed` set at request time; seeded C39-e, fix d9a6762) | `handle_close_commits_writes_and_size_changes` (the code as it is), from `handle_close_commits_reference` (both settings of `sizeSets`); model `Tahoe/Sftp/Handle.lean` of `GeneralSFTPFile`'s queue, `has_changed`, `close`/`_commit`; `seedE_pipelined_close_loses_write_counterexample` for the set-point of the seed |
+| size changes applied — when the handle's only requests are `setAttrs(size)`     | covered by `handle_close_commits_writes_and_size_changes`; it was FALSE before d9a6762: `preFix_size_change_only_not_stored_counterexample` |
 | `GeneralSFTPFile.readChunk` honours the consumer's read contract                | not covered — it does not (see the `example` on `WF`); reads are not part of the handle model |
 | two pending reads with equal milestone index (`heapq` compares Deferreds → TypeError) | outside the model; noted in harness/props/c39.py |
 -/
@@ -157,36 +157,55 @@ example : let h : List Ev := [.overwrite 3 [200, 201], .setSize 4, .setSize 9, .
 /-! ### the SFTP handle (`GeneralSFTPFile`): `has_changed` and the commit decision of `close` -/
 
 /-- For a handle opened on an existing file for writing (no TRUNC/CREAT), with `has_changed` set at the
-time of the `writeChunk` request (the code; `sz` = whether `setAttrs(size)` sets it too, either way):
-in every history of requests (writeChunk, setAttrs, close) interleaved in any way with the start of the
-download (`get_best_readable_version()` firing — before or after any of the requests, also after
-`close`), download chunks of any sizes, `download_done` and queue turns, if at least one `writeChunk`
-was accepted (requested before `close`) and the close is reported successful, then what was stored in
-the grid is exactly the reference: the original with all accepted writes and size changes in order. -/
+time of the request — by `writeChunk` always, by `setAttrs(size)` iff `sz` (`sz = true` is the code as
+it is, `HVariant.code`; `sz = false` the code before d9a6762): in every history of requests (writeChunk,
+setAttrs, close) interleaved in any way with the start of the download (`get_best_readable_version()`
+firing — before or after any of the requests, also after `close`), download chunks of any sizes,
+`download_done` and queue turns, if at least one marking request was accepted (requested before
+`close`: a writeChunk, or — when `sz` — a size change) and the close is reported successful, then what
+was stored in the grid is exactly the reference: the original with all accepted writes and size changes
+applied in order. -/
 theorem handle_close_commits_reference (sz : Bool) (orig : Bytes) (es : List HEv)
     (hwf : HWF ⟨.atRequest, sz⟩ orig (hinit orig) es)
-    (hwrote : (es.foldl wroteStep (false, false)).1 = true)
+    (hmark : (es.foldl (markStep sz) (false, false)).1 = true)
     (hok : (hrun ⟨.atRequest, sz⟩ orig (hinit orig) es).res = .ok) :
     (hrun ⟨.atRequest, sz⟩ orig (hinit orig) es).stored = some (href orig es) := by
   have hp := hrun_phase sz orig es (hinit orig) (orig, false) (false, false) (hinit_phase orig) rfl rfl hwf
   cases hp with
   | queued cl hcl hs hp hr hc hw hf hres => rw [hres] at hok; cases hok
-  | queuedClosed cl commit hcl hs hp hr hc hw hf hres => rw [hres (hf hwrote)] at hok; cases hok
+  | queuedClosed cl commit hcl hs hp hr hc hw hf hres => rw [hres (hf hmark)] at hok; cases hok
   | live hs hp hc hw hinv hq hcc hf hres => rw [hres] at hok; cases hok
   | committing hs hp hc hw hinv hq hcc hres => rw [hres] at hok; cases hok
-  | finished hs hp hc hw hfin => exact hfin hwrote hok
+  | finished hs hp hc hw hfin => exact hfin hmark hok
+
+/-- the statement for the code as it is: at least one accepted writeChunk *or size change* -/
+theorem handle_close_commits_writes_and_size_changes (orig : Bytes) (es : List HEv)
+    (hwf : HWF .code orig (hinit orig) es)
+    (hmark : (es.foldl (markStep true) (false, false)).1 = true)
+    (hok : (hrun .code orig (hinit orig) es).res = .ok) :
+    (hrun .code orig (hinit orig) es).stored = some (href orig es) :=
+  handle_close_commits_reference true orig es hwf hmark hok
 
 /-- a pipelined open / write / close: the close request arrives before the download has even started -/
 def pipelined : List HEv :=
   [.write 2 [200, 201, 202], .close, .start, .chunk 4, .write 0 [9], .chunk 50, .done true, .turn]
 
-/-- non-vacuity: the pipelined history is well-formed, has an accepted write (the second write, after
-`close`, is refused), ends with a successful close and the reference stored -/
+/-- only size changes, pipelined: truncate, extend, close, then the download -/
+def sizesOnly : List HEv := [.setSize 3, .setSize 5, .close, .start, .chunk 50, .done true, .turn]
+
+/-- non-vacuity: both histories are well-formed, contain an accepted marking request (the second write
+of `pipelined`, after `close`, is refused), end with a successful close and the reference stored -/
 example : HWF .code [1, 2, 3, 4, 5, 6, 7] (hinit [1, 2, 3, 4, 5, 6, 7]) pipelined
-    ∧ (pipelined.foldl wroteStep (false, false)).1 = true
+    ∧ (pipelined.foldl (markStep true) (false, false)).1 = true
     ∧ (hrun .code [1, 2, 3, 4, 5, 6, 7] (hinit [1, 2, 3, 4, 5, 6, 7]) pipelined).res = .ok
     ∧ (hrun .code [1, 2, 3, 4, 5, 6, 7] (hinit [1, 2, 3, 4, 5, 6, 7]) pipelined).stored = some [1, 2, 200, 201, 202, 6, 7]
     ∧ href [1, 2, 3, 4, 5, 6, 7] pipelined = [1, 2, 200, 201, 202, 6, 7] := by decide
+
+example : HWF .code [1, 2, 3, 4, 5, 6, 7] (hinit [1, 2, 3, 4, 5, 6, 7]) sizesOnly
+    ∧ (sizesOnly.foldl (markStep true) (false, false)).1 = true
+    ∧ (hrun .code [1, 2, 3, 4, 5, 6, 7] (hinit [1, 2, 3, 4, 5, 6, 7]) sizesOnly).res = .ok
+    ∧ (hrun .code [1, 2, 3, 4, 5, 6, 7] (hinit [1, 2, 3, 4, 5, 6, 7]) sizesOnly).stored = some [1, 2, 3, 0, 0]
+    ∧ href [1, 2, 3, 4, 5, 6, 7] sizesOnly = [1, 2, 3, 0, 0] := by decide
 
 /-- seeded change C39-e (`has_changed` set only when the queued write runs): the same pipelined history
 reports a successful close and stores nothing — the client's write is lost -/
@@ -194,15 +213,13 @@ theorem seedE_pipelined_close_loses_write_counterexample :
     (hrun .seedE [1, 2, 3, 4, 5, 6, 7] (hinit [1, 2, 3, 4, 5, 6, 7]) pipelined).res = .ok
     ∧ (hrun .seedE [1, 2, 3, 4, 5, 6, 7] (hinit [1, 2, 3, 4, 5, 6, 7]) pipelined).stored = none := by decide
 
-/-- what the hypothesis "an accepted writeChunk" excludes, and what the code as it is does there:
-`setAttrs(size)` never sets `has_changed`, so a handle whose only requests are size changes reports a
-successful close and stores nothing (known finding, reproduced on the real class); with
-fixes/C39-setattrs-has-changed.diff the truncated contents are stored -/
-theorem code_size_change_only_not_stored_counterexample :
-    let h : List HEv := [.setSize 3, .close, .start, .chunk 50, .done true, .turn]
-    (hrun .code [1, 2, 3, 4, 5, 6, 7] (hinit [1, 2, 3, 4, 5, 6, 7]) h).res = .ok
-    ∧ (hrun .code [1, 2, 3, 4, 5, 6, 7] (hinit [1, 2, 3, 4, 5, 6, 7]) h).stored = none
-    ∧ href [1, 2, 3, 4, 5, 6, 7] h = [1, 2, 3]
-    ∧ (hrun .sizeFix [1, 2, 3, 4, 5, 6, 7] (hinit [1, 2, 3, 4, 5, 6, 7]) h).stored = some [1, 2, 3] := by decide
+/-- the code before d9a6762 (`setAttrs(size)` did not set `has_changed`): a handle whose only requests
+are size changes reports a successful close and stores nothing, although the reference is the truncated
+/ extended file (defect reproduced on the real class; repaired by fixes/C39-setattrs-has-changed.diff).
+For that variant `handle_close_commits_reference false` needs an accepted writeChunk, and this is why. -/
+theorem preFix_size_change_only_not_stored_counterexample :
+    (hrun .preFix [1, 2, 3, 4, 5, 6, 7] (hinit [1, 2, 3, 4, 5, 6, 7]) sizesOnly).res = .ok
+    ∧ (hrun .preFix [1, 2, 3, 4, 5, 6, 7] (hinit [1, 2, 3, 4, 5, 6, 7]) sizesOnly).stored = none
+    ∧ href [1, 2, 3, 4, 5, 6, 7] sizesOnly = [1, 2, 3, 0, 0] := by decide
 
 end Tahoe.C39
